@@ -2,6 +2,7 @@ package main
 
 import (
 	"fmt"
+	"go/constant"
 	"go/token"
 	"go/types"
 
@@ -518,6 +519,21 @@ func ruleNilRing(c *Ctx) {
 					return true
 				}
 			}
+			// … or a predicate of the package said yes that only says yes for a non-nil argument (r.hasNeighbors())
+			for call, truth := range callFactsAt(b) {
+				if !truth {
+					continue
+				}
+				cal := staticCallee(&call.Call)
+				if cal == nil || cal.Blocks == nil || cal.Pkg != origin(fn).Pkg {
+					continue
+				}
+				for j, a := range call.Call.Args {
+					if a == p && j < len(cal.Params) && trueImpliesNonNil(cal, j) {
+						return true
+					}
+				}
+			}
 			return false
 		}
 		// the receiver, or a cursor that can still hold it (cur := r; for … { cur = step(cur) })
@@ -666,4 +682,53 @@ func ruleGapReposition(c *Ctx) {
 		skip, wit := reachesWithout(c.P, body.Instrs[0], true, func(x ssa.Instruction) bool { return x.Block() == join }, setsStart)
 		c.judge(!skip, "R-GAP-REPOSITION", fmt.Sprintf("%s:gap block #%d", fnName(fn), n), iff.Cond.Pos(), "every path sets the chunk's start", "the block that handles a gap after the current chunk can be left ("+wit+") without giving the chunk that is current afterwards its start from the running position: an empty chunk that is taken over keeps the place it was created at, and its ranges no longer frame its edits")
 	}
+}
+
+// trueImpliesNonNil: the boolean function fn answers true only on paths where its parameter pi is known non-nil
+// (return p != nil && …): every return value is the constant false, or is produced where p != nil is a fact.
+func trueImpliesNonNil(fn *ssa.Function, pi int) bool {
+	if fn.Signature.Results().Len() != 1 || pi >= len(fn.Params) {
+		return false
+	}
+	p := ssa.Value(fn.Params[pi])
+	known := func(b *ssa.BasicBlock) bool {
+		for _, cm := range cmpsAt(b) {
+			if cm.Op == token.NEQ && ((cm.X == p && isNilConst(cm.Y)) || (cm.Y == p && isNilConst(cm.X))) {
+				return true
+			}
+		}
+		return false
+	}
+	isFalse := func(v ssa.Value) bool {
+		k, ok := v.(*ssa.Const)
+		return ok && k.Value != nil && k.Value.Kind() == constant.Bool && !constant.BoolVal(k.Value)
+	}
+	var okVal func(v ssa.Value, at *ssa.BasicBlock, d int) bool
+	okVal = func(v ssa.Value, at *ssa.BasicBlock, d int) bool {
+		if isFalse(v) || known(at) {
+			return true
+		}
+		if bo, ok := v.(*ssa.BinOp); ok && bo.Op == token.NEQ && ((bo.X == p && isNilConst(bo.Y)) || (bo.Y == p && isNilConst(bo.X))) {
+			return true
+		}
+		if ph, ok := v.(*ssa.Phi); ok && d < 3 {
+			for i, e := range ph.Edges {
+				if !okVal(e, ph.Block().Preds[i], d+1) {
+					return false
+				}
+			}
+			return true
+		}
+		return false
+	}
+	n, all := 0, true
+	allInstrs(fn, func(in ssa.Instruction) {
+		if r, ok := in.(*ssa.Return); ok && len(r.Results) == 1 {
+			n++
+			if !okVal(r.Results[0], r.Block(), 0) {
+				all = false
+			}
+		}
+	})
+	return n > 0 && all
 }
